@@ -472,6 +472,26 @@ where
         bl[31] ^= 1;
         vreject(h, "blind_edit", &pk, hdr.as_deref(), &msgs, &cmsgs, Some(&bl));
         vreject(h, "blind_absent", &pk, hdr.as_deref(), &msgs, &cmsgs, None);
+        // the same residue written as another 32-octet string (blind + r, when it fits): not a blind factor
+        {
+            let r_be: [u8; 32] = [0x73, 0xed, 0xa7, 0x53, 0x29, 0x9d, 0x7d, 0x48, 0x33, 0x39, 0xd8, 0x08, 0x09, 0xa1, 0xd8, 0x05, 0x53, 0xbd, 0xa4, 0x02, 0xff, 0xfe, 0x5b, 0xfe, 0xff, 0xff, 0xff, 0xff, 0x00, 0x00, 0x00, 0x01];
+            let mut sum = [0u8; 32];
+            let mut carry = 0u16;
+            for i in (0..32).rev() {
+                let t = run.blind[i] as u16 + r_be[i] as u16 + carry;
+                sum[i] = t as u8;
+                carry = t >> 8;
+            }
+            for cand in [if carry == 0 { Some(sum) } else { None }, Some(r_be), Some([0xffu8; 32])].into_iter().flatten() {
+                let d = dec(h, "blind", &cand);
+                h.stat("C06.vbs.blind_other_representative");
+                h.expect(!d.is_panic(), "C06.blind_decode_panic", "BlindFactor::from_bytes panicked", &[h.last()]);
+                if d.is_ok() {
+                    h.expect(false, "C06.blind_other_representative", "BlindFactor::from_bytes accepted a 32-octet string that is not below the group order", &[h.last()]);
+                    vreject(h, "blind_other_representative", &pk, hdr.as_deref(), &msgs, &cmsgs, Some(&cand));
+                }
+            }
+        }
         let mut h1 = hdr.clone().unwrap_or_default();
         h1.push(9);
         vreject(h, "hdr", &pk, Some(&h1), &msgs, &cmsgs, Some(&run.blind));
